@@ -53,3 +53,25 @@ def find_exporters(rng, alen=4):
             assert fnv1(ea + [1, 1]) == fnv1(eb + [1, 1]) and fnv1(ea + [1, 0]) == fnv1(ec + [1, 1])
             return {"ea": ea, "eb": eb, "ec": ec}
     raise RuntimeError("no colliding exporters found")
+
+
+def colliding_loopback(prefix, addr_a, id_a):
+    """(address 127.b.c.d, template id) whose cache key equals that of (addr_a, id_a); prefix: what precedes the four address
+    octets in the form the collector sees ([] or the IPv4-mapped prefix).  Meet in the middle over b, c | d, id."""
+    target = fnv1(list(prefix) + list(addr_a) + [id_a >> 8, id_a & 255])
+    h0 = fnv1(list(prefix) + [127])
+    fwd = {}
+    for b in range(256):
+        hb = ((h0 * P) & M) ^ b
+        for c in range(256):
+            fwd[((hb * P) & M) ^ c] = (b, c)
+    for tid in range(256, 4000):
+        h2 = back(target, [tid >> 8, tid & 255])
+        for d in range(1, 255):
+            h3 = ((h2 ^ d) * PINV) & M
+            if h3 in fwd:
+                cand = [127, fwd[h3][0], fwd[h3][1], d]
+                if cand != list(addr_a):
+                    assert fnv1(list(prefix) + cand + [tid >> 8, tid & 255]) == target
+                    return cand, tid
+    return None
